@@ -1136,6 +1136,44 @@ pub fn run<'tcx>(tcx: TyCtxt<'tcx>) {
             }
         }
     }
+    // comparison and rendering traits of the containers (derived or hand-written): eq / partial_cmp / cmp / fmt
+    {
+        let li = tcx.lang_items();
+        let mut trs: Vec<DefId> = Vec::new();
+        if let Some(d) = li.eq_trait() {
+            trs.push(d);
+        }
+        if let Some(d) = li.partial_ord_trait() {
+            trs.push(d);
+        }
+        for sym in [rustc_span::sym::Ord, rustc_span::sym::Debug, rustc_span::sym::Display] {
+            if let Some(d) = tcx.get_diagnostic_item(sym) {
+                trs.push(d);
+            }
+        }
+        for c in containers.iter() {
+            for tr in trs.iter() {
+                let n = tcx.generics_of(*tr).count();
+                let v: Vec<GenericArg<'tcx>> = (0..n).map(|_| GenericArg::from(*c)).collect();
+                for it in tcx.associated_items(*tr).in_definition_order() {
+                    if !it.is_fn() || tcx.generics_of(it.def_id).count() != n {
+                        continue;
+                    }
+                    let args = tcx.mk_args(&v);
+                    let r = std::panic::catch_unwind(std::panic::AssertUnwindSafe(|| {
+                        Instance::try_resolve(tcx, env_mono, it.def_id, args).ok().flatten()
+                    }));
+                    if let Ok(Some(inst)) = r {
+                        let meta = J::obj()
+                            .with("trait", J::s(cx.path(*tr)))
+                            .with("method", J::s(it.name().to_string()))
+                            .with("self", J::s(tystr(*c)));
+                        roots.push((inst, meta));
+                    }
+                }
+            }
+        }
+    }
     // the k-mer iterators over sequence containers: every method of `impl Iterator for KmerIter / KmerExtsIter` (next and any
     // overridden provided method), for every container x a spread of k-mer types
     if let Some(t_iter) = tcx.get_diagnostic_item(rustc_span::sym::Iterator) {
